@@ -219,7 +219,7 @@ def fresh_repo(U, user, be, concurrent=2, cache_directory=None):
     return r
 
 
-def run_case(encrypted, caller, owners, refs, orphans, op, delays=None, prev=None):
+def run_case(encrypted, caller, owners, refs, orphans, op, delays=None, prev=None, confirm=None):
     U = users(encrypted)
     rt.determinism(7)
     objs, snaps = build_state(U, owners, refs, orphans)
@@ -247,7 +247,23 @@ def run_case(encrypted, caller, owners, refs, orphans, op, delays=None, prev=Non
             names = [snaps[i]['name'] for i in idx if i < len(snaps)]
             if op == 'delX':
                 names = ['ab' * 32]
-            _run(repo.delete_snapshots(names, confirm=False))
+            if confirm is None:
+                _run(repo.delete_snapshots(names, confirm=False))
+            else:
+                # the interactive path: the command asks, the user answers `confirm` ('y' / 'n')
+                import contextlib
+                import io
+                asked = []
+                R.input = lambda prompt='': (asked.append(prompt), confirm)[1]
+                try:
+                    with contextlib.redirect_stdout(io.StringIO()):
+                        _run(repo.delete_snapshots(names, confirm=True))
+                finally:
+                    del R.input
+                if confirm != 'y':
+                    if be.objs != before:
+                        return False, f'delete answered {confirm!r} at the prompt changed the store'
+                    return True, ''
     except Exception as e:
         raised = e
     if be.counts['upload'] or be.counts['upload_stream']:
@@ -381,8 +397,10 @@ def g_quick(k: int) -> bool:
         refs = _refs_from_bits(bits, 2, 2)
         # every other vector: the client object was used by another user before (B shared / C independent / A itself)
         prev = [None, 'C', None, 'B', None, 'A'][(oc + bits + orph + opi) % 6]
-        ok, msg = run_case(True, 'A', owners, refs, ORPHANS[orph], OPS[opi], prev=prev)
-        tick('g_quick', [owners, refs, orph, OPS[opi], prev])
+        # every third delete goes through the confirmation prompt (answered y; every ninth: n)
+        confirm = None if OPS[opi] == 'clean' else [None, None, 'y', None, 'y', None, None, 'y', 'n'][(oc + 2 * bits + orph) % 9]
+        ok, msg = run_case(True, 'A', owners, refs, ORPHANS[orph], OPS[opi], prev=prev, confirm=confirm)
+        tick('g_quick', [owners, refs, orph, OPS[opi], prev, confirm])
         if not ok:
             _say(owners, refs, ORPHANS[orph], OPS[opi], msg)
         return ok
